@@ -12,7 +12,7 @@
    over ([orders]); the theorems hold for all of them. *)
 From Coq Require Import List.
 Import ListNotations.
-From Oras Require Import Base.Prelude Generated.GC08 Model.OciIndex Proofs.OciIndex Model.TarFS Proofs.TarFS Model.OciConc Proofs.OciConc Proofs.OciFuel.
+From Oras Require Import Base.Prelude Generated.GC08 Model.OciIndex Proofs.OciIndex Model.TarFS Proofs.TarFS Model.OciConc Proofs.OciConc Proofs.OciFuel Model.OciLocks Proofs.OciLocks.
 Local Open Scope nat_scope.
 
 (* AutoSaveIndex on: after EVERY history of Push/Tag/Untag/Delete/GC/SaveIndex/read-write
@@ -263,6 +263,63 @@ Example C08_concurrent_hypotheses_satisfiable :
    disk _ _ s = [mkDesc 1 0 (Some (RTag 0))] /\ ilock _ _ s = None).
 Proof. exact concurrent_example. Qed.
 
+
+(* ================= all operations under both locks (Model/OciLocks.v) =================
+   Tag, Untag, SaveIndex, Push (shared store lock) and Delete (exclusive) as programs of atomic
+   steps on the resolver map, index.json, the blob files, the RWMutex and indexLock. *)
+
+(* safety of EVERY program that respects the lock discipline ([check]: store lock held around
+   every access, Exists/Push seen under the lock before a reference to that content is
+   registered, snapshot and write under indexLock, references dropped and saved before a blob
+   is removed under the exclusive lock): under every schedule, at quiescence index.json is
+   saveIndex of the live map, every live reference points to a blob file, no lock is held *)
+Theorem C08_lock_discipline_sufficient :
+  forall (s0 : lstate) (sched : list (nat * (list nat * list nat))),
+    l_init s0 -> let s := l_run sched s0 in
+    l_quiescent s ->
+    (exists c, ll_disk s = save_index (fst c) (snd c) (ll_live s)) /\ refs_valid s /\ ll_ilock s = None.
+Proof. exact locks_quiescent. Qed.
+Print Assumptions C08_lock_discipline_sufficient.
+
+(* the programs of the real operations, assembled from the call sequences the translator reads
+   from content/oci/oci.go, and that they respect the discipline *)
+Theorem C08_programs_respect_lock_discipline :
+  ((forall d t, prog_tag d t = [KRLock; KExists (d_node d); KReg (RegDig d); KReg (RegTag t d);
+                                KSave SLock; KSave SSnap; KSave SWrite; KSave SUnlock; KRUnlock]) /\
+   (forall t, prog_untag t = [KRLock; KReg (RegUntag t); KSave SLock; KSave SSnap; KSave SWrite; KSave SUnlock; KRUnlock]) /\
+   prog_saveindex = [KRLock; KSave SLock; KSave SSnap; KSave SWrite; KSave SUnlock; KRUnlock] /\
+   (forall k, prog_push k true = [KRLock; KCreate k; KReg (RegDig (plain k));
+                                  KSave SLock; KSave SSnap; KSave SWrite; KSave SUnlock; KRUnlock]) /\
+   (forall k, prog_push k false = [KRLock; KCreate k; KRUnlock]) /\
+   (forall k, prog_delete k = [KWLock; KRegDelete k; KSave SLock; KSave SSnap; KSave SWrite; KSave SUnlock;
+                               KRemove k; KWUnlock])) /\
+  forall ops, check ts0 (prog_of_lops ops) = true.
+Proof. exact (conj programs_explicit lops_checked). Qed.
+Print Assumptions C08_programs_respect_lock_discipline.
+
+(* hence: any number of threads running any lists of Tag / Untag / SaveIndex / Push / Delete
+   calls on a store at rest, every schedule *)
+Theorem C08_store_operations_quiescent :
+  forall (s0 : lstate) (sched : list (nat * (list nat * list nat))),
+    (exists c, ll_disk s0 = save_index (fst c) (snd c) (ll_live s0)) -> refs_valid s0 -> ll_ilock s0 = None ->
+    (forall i, i < ll_n s0 -> exists ops, ll_ths s0 i = mkLT (prog_of_lops ops) ts0 None true) ->
+    let s := l_run sched s0 in
+    l_quiescent s ->
+    (exists c, ll_disk s = save_index (fst c) (snd c) (ll_live s)) /\ refs_valid s /\ ll_ilock s = None.
+Proof. exact store_operations_quiescent. Qed.
+Print Assumptions C08_store_operations_quiescent.
+
+(* the lock placements of the two seeded changes are rejected by the checker, and the second one
+   (Exists before RLock) run against a Delete ends with a tag, in memory and in index.json, on
+   content whose blob file is gone *)
+Theorem C08_seeded_lock_orders_rejected :
+  (check ts0 (KRLock :: map KSave [SSnap; SLock; SWrite; SUnlock] ++ [KRUnlock]) = false /\
+   check ts0 [KExists 0; KRLock; KReg (RegDig (plain 0)); KSave SLock; KSave SSnap; KSave SWrite; KSave SUnlock; KRUnlock] = false) /\
+  (let s := l_run (map (fun i => (i, ([], []))) [0; 1; 1; 1; 1; 1; 1; 1; 1; 0; 0; 0; 0; 0; 0; 0; 0]) exl_s0 in
+   l_quiescent s /\ ll_blobs s = [] /\ lookup (RTag 5) (ll_live s) = Some (plain 0) /\
+   ll_disk s = [mkDesc 0 0 (Some (RTag 5))]).
+Proof. exact (conj seeded_orders_rejected unlocked_exists_refuted). Qed.
+Print Assumptions C08_seeded_lock_orders_rejected.
 
 (* ================= the fuel of the model is sufficient (audit F7) =================
    On a universe whose successor and subject links point to smaller node ids (content
